@@ -502,6 +502,14 @@ class Interp:
         for rx, v in self.cenv_rx:
             if rx.fullmatch(c):
                 return v
+        if k == 'Call' and short(e.get('callee')) in ('operator==', 'operator!='):
+            # the rule fixed the complementary comparison (x == end  vs  x != end): use its negation, so that rules do not depend on which form the code uses
+            alt = ('operator!=' if short(e['callee']) == 'operator==' else 'operator==') + c[len('operator=='):]
+            if alt in self.cenv:
+                return int(not self.cenv[alt])
+            for rx, v in self.cenv_rx:
+                if rx.fullmatch(alt):
+                    return int(not v)
         if c in ('true', 'CK_TRUE'):
             return 1
         if c in FALSEY:
